@@ -228,7 +228,7 @@ inline sim::Plan genPlan(uint64_t seed, const std::string &profile, bool thoroug
         int64_t nmax = thorough ? 8 : 6;
         if (profile != "C18") {
             if (zz < (thorough ? 100u : 40u)) nmax = 12;
-            else if (zz < (thorough ? 150u : 60u)) { nmax = 72; large = true; }
+            else if (zz < (thorough ? 150u : 60u) && profile != "C15") { nmax = 72; large = true; } // (C15 enumerates cuts: one sweep per cut)
         }
         p.cfg["nmax"] = nmax;
         if (nmax > 8 && r.pm(700)) p.n0 = (int64_t)r.below((uint64_t)nmax + 1);
@@ -337,7 +337,7 @@ inline sim::Plan genPlan(uint64_t seed, const std::string &profile, bool thoroug
             } else if (profile == "C15") {
                 bool binOk = !(p.lab == "string" || p.lab == "struct");
                 bool textOk = true;
-                if (u < 12 && binOk) { o.k = "cutall"; o.x = 1; o.s = genBinaryFile(r, p.lab, directed, false, true); } // every cut of a hand-made file with special index bytes
+                if (u < 6 && binOk) { o.k = "cutall"; o.x = 1; o.s = genBinaryFile(r, p.lab, directed, false, true); } // every cut of a hand-made file with special index bytes
                 else if (u < 45 && binOk) { o.k = "cutall"; o.x = 1; }
                 else if (u < 55 && textOk) { o.k = "cutall"; o.x = 0; }
                 else if (u < 75 && binOk) { o.k = "loadraw"; o.x = 2; o.y = 1; o.s = genBinaryFile(r, p.lab, directed, true); }
